@@ -91,6 +91,14 @@ def run(ctx):
         kind, data, ranges, extra = cur["k"]
         if kind == "buf":
             res = Response(data)
+        elif kind == "bufw":
+            # buffer filled by a write history of str (UTF-8) and bytes
+            res = Response(extra[0])
+            for piece in extra[1:]:
+                if piece is None:
+                    _ = res.data        # reading the buffer in between
+                else:
+                    res.write(piece)
         elif kind == "bytesio":
             fobj = io.BytesIO(data)
             fobj.seek(extra)
@@ -112,6 +120,9 @@ def run(ctx):
             res = Response(data)
             if "Range" in req.headers:
                 ranges = parse_range(req.headers["Range"]).get("bytes", [])
+        if cur.get("declare"):
+            # the handler declares the full length itself, any letter case
+            res.add_header(cur["declare"], str(len(data)))
         res.make_partial(ranges)
         return res
 
@@ -127,8 +138,12 @@ def run(ctx):
             if hasattr(self.filelike, "close"):
                 self.filelike.close()
 
-    def one(kind, data, ranges, extra=None, hdr=None):
+    def enc(piece):
+        return piece.encode("utf-8") if isinstance(piece, str) else piece
+
+    def one(kind, data, ranges, extra=None, hdr=None, declare=None):
         cur["k"] = (kind, data, ranges, extra)
+        cur["declare"] = declare
         if kind in ("realfile", "path"):
             cur["path"] = os.path.join(tmpdir, "f%d.bin" % len(data))
             with open(cur["path"], "wb") as fil:
@@ -152,8 +167,11 @@ def run(ctx):
         L = len(data)
         offset = extra if kind in ("bytesio", "realfile") else 0
         repr_ = data[offset:]
-        # ---- correspondence case
-        if kind == "gen":
+        # ---- correspondence case (the model has no handler-declared
+        # length header: those cases are for the oracle below only)
+        if declare:
+            pass
+        elif kind == "gen":
             term = "run_generator %s %s %s" % (
                 clist(slit(data[sum(extra[:i]):sum(extra[:i + 1])])
                       for i in range(len(extra))), zlit(L),
@@ -164,6 +182,14 @@ def run(ctx):
             term = "run_fileobj %s %s %s" % (slit(data), zlit(offset),
                                             ranges_term(ranges))
             cases.append((term, observe(ans), [kind, L, ranges, extra]))
+        elif kind == "bufw":
+            term = "run_response %s %s %s" % (
+                slit(enc(extra[0])),
+                clist("None" if x is None else "(Some %s)" % slit(enc(x))
+                      for x in extra[1:]),
+                ranges_term(ranges))
+            cases.append((term, observe(ans),
+                          [kind, L, ranges, [repr(x) for x in extra]]))
         else:
             term = "run_response %s [] %s" % (slit(data), ranges_term(ranges))
             cases.append((term, observe(ans), [kind, L, ranges, extra]))
@@ -190,9 +216,15 @@ def run(ctx):
                 bad = "full body expected"
             elif ans.header("Content-Range") is not None:
                 bad = "Content-Range on 200"
+        clens = [v for k, v in ans.headers if k.lower() == "content-length"]
+        if not bad and status in (200, 206) and (
+                len(clens) > 1 or clens and clens[0] != str(len(ans.body))):
+            bad = "Content-Length headers %r for %d body bytes" % (
+                clens, len(ans.body))
         if bad:
             ctx.violation("rfc9110", {"kind": kind, "L": L, "ranges": ranges,
-                                      "extra": extra, "offset": offset,
+                                      "extra": repr(extra)[:200],
+                                      "offset": offset, "declared": declare,
                                       "what": bad})
 
     try:
@@ -218,6 +250,23 @@ def run(ctx):
                 hdr = "bytes=%s-%s" % ("" if r[0] is None else r[0],
                                        "" if r[1] is None else r[1])
                 one("e2e", data, [r], hdr={"Range": hdr})
+            # write histories with multi-byte text; lengths declared by
+            # the handler under any spelling of the header name
+            pieces = ["\u010ce\u0161tina", b"\xff\x00", "\u20ac", "ab", b"",
+                      "\U0001f600"]
+            for r in (singles if not ctx.quick else rng.sample(
+                    singles, min(len(singles), 12))):
+                hist = [rng.choice(pieces)
+                        for _ in range(rng.randint(1, 4))]
+                if rng.random() < 0.3:
+                    hist.insert(rng.randint(1, len(hist)), None)
+                whole = b"".join(enc(x) for x in hist if x is not None)
+                one("bufw", whole, [r], hist)
+                spell = rng.choice(["Content-Length", "content-length",
+                                    "CONTENT-LENGTH", "Content-length"])
+                one("buf", data, [r], declare=spell)
+                one("gen", data, [r], compositions(L, True, rng, 1)[0],
+                    declare=spell)
             # range lists of length 0 and 2
             one("buf", data, [])
             one("gen", data, [], compositions(L, False, rng, 1)[0])
@@ -249,9 +298,11 @@ def run(ctx):
         shutil.rmtree(tmpdir, ignore_errors=True)
     return ctx.finish(
         "exhaustive grid L in 0..%d, first/last in {absent}+0..L+2, kinds "
-        "buf/BytesIO(offset 0 and >0)/real file/path/generator(all or sampled "
+        "buf/buffer built by write histories of multi-byte str and bytes/"
+        "BytesIO(offset 0 and >0)/real file/path/generator(all or sampled "
         "compositions incl. empty chunks)/end-to-end Range header, range "
-        "lists of length 0-2; random L<=3000 near 0,L-1,L; a case is "
+        "lists of length 0-2, full length pre-declared by the handler under four "
+        "spellings of Content-Length; random L<=3000 near 0,L-1,L; a case is "
         "distinct by (kind,L,ranges,chunking/offset) and non-trivial when a "
         "range is present" % maxL,
         assumptions=["io.BytesIO / file seek+read semantics as modelled "
